@@ -26,7 +26,7 @@ BUDGET_S = {"quick": 80, "thorough": 1200}
 
 
 def gen_cases(seed, tier):
-    return mc.gen_cases(ID, seed, tier, n_quick=64, n_thorough=640, ex_quick=60, ex_thorough=150, steps=8)
+    return mc.gen_cases(ID, seed, tier, n_quick=112, n_thorough=640, ex_quick=60, ex_thorough=150, steps=8)
 
 
 def run_case(case, workdir):
